@@ -345,7 +345,10 @@ UNITS = {'snep': snep_units, 'card': card_units}
 
 def replay(doc):
     d = doc['detail']
-    if d.get('part') == 'card':
+    if d.get('part') == 'dep':
+        res = dep_work((d['side'], d['brty'], d['did'], d['op'],
+                        [('replay', d['first'], d['second'])]))
+    elif d.get('part') == 'card':
         res = card_work((d['mode'], [('replay', d['cmd'])]))
     elif d.get('part') == 'snep':
         res = snep_work((d['kind'], [tuple(d['item'])]))
@@ -355,3 +358,140 @@ def replay(doc):
     sigs = sorted(res['failures'])
     print('replay:', sigs)
     return 1 if sigs else 0
+
+
+# -- NFC-DEP data exchange against a scripted frame source ---------------------------
+class DepClf(object):
+    """clf stand-in: answers exchange() with scripted frames, then times out.
+    A call with timeout 0 only sends (as the drivers do)."""
+
+    def __init__(self, frames):
+        self.frames = list(frames)
+        self.sent = []
+
+    def exchange(self, data, timeout):
+        import nfc.clf
+        self.sent.append(None if data is None else bytes(data))
+        if timeout is not None and timeout <= 0 and data is not None:
+            return None
+        if self.frames:
+            f = self.frames.pop(0)
+            if f is None:
+                raise nfc.clf.TimeoutError("scripted silence")
+            return bytearray(f)
+        raise nfc.clf.TimeoutError("peer is gone")
+
+    def sense(self, *a, **k):
+        return None
+
+    def listen(self, *a, **k):
+        return None
+
+
+def dep_frames(tier, side):
+    """Crafted peer frames (without framing): every PFB value with several
+    tails for DEP, and the other PDU types in data exchange context."""
+    code = b'\xd5\x07' if side == 'initiator' else b'\xd4\x06'
+    tails = [b'', b'\x00', b'\x01', b'\x01\x02', b'\x00\x00\x00', b'\xff' * 4]
+    out = []
+    for pfb in range(256):
+        for t in tails:
+            out.append(('dep-pfb', code + bytes([pfb]) + t))
+    base = 0xD5 if side == 'initiator' else 0xD4
+    for c in range(0, 12):
+        for t in (b'', b'\x00', b'\x00\x00', b'\x01\x02\x03', bytes(15),
+                  bytes(17)):
+            out.append(('other-pdu', bytes([base, c]) + t))
+    for b in (b'', b'\x00', b'\xd5', b'\xd4', b'\xd5\x07', b'\xd4\x06'):
+        out.append(('short', b))
+    return out
+
+
+def dep_case(side, brty, did, first, second, op):
+    import nfc.dep
+    import nfc.clf
+
+    def frame(body):
+        if body is None:
+            return None
+        f = bytes([len(body) + 1]) + body
+        return (b'\xf0' + f) if brty == '106A' else f
+    clf = DepClf([frame(first), frame(second)])
+    if side == 'initiator':
+        dep = nfc.dep.Initiator(clf)
+        dep.target = nfc.clf.RemoteTarget(brty)
+        dep.miu, dep.pni, dep.rwt, dep.did, dep.nad = 61, 0, 0.01, did, None
+        dep.gbt = b''
+        if op == 'exchange':
+            return dep.exchange(b'p' * 5, 0.5)
+        if op == 'exchange-chained':
+            return dep.exchange(b'p' * 100, 0.5)
+        return dep.deactivate(release=op == 'release')
+    dep = nfc.dep.Target(clf)
+    dep.target = nfc.clf.LocalTarget(brty)
+    dep.miu, dep.pni, dep.rwt, dep.did, dep.nad = 61, 0, 0.01, did, None
+    dep.cmd = None
+    dep.gbi = b''
+    dep.acm = False
+    if op == 'exchange':
+        return dep.exchange(b'r' * 5, 0.5)
+    if op == 'exchange-chained':
+        return dep.exchange(b'r' * 100, 0.5)
+    if op == 'rtox':
+        return dep.send_timeout_extension(2)
+    return dep.deactivate(b'bye')
+
+
+def dep_work(arg):
+    import nfc.clf
+    side, brty, did, op, items = arg
+    run = Run('C07')
+    for cls, first, second in items:
+        first = bytes.fromhex(first)
+        second = None if second is None else bytes.fromhex(second)
+        key = ('dep', side, brty, did, op, first, second)
+        try:
+            dep_case(side, brty, did, first, second, op)
+            out = 'returned'
+            bad = None
+        except nfc.clf.CommunicationError as e:
+            out, bad = type(e).__name__, None
+        except Exception as e:
+            out = 'exc'
+            bad = ('dep|%s|%s|%s|%s' % (side, op, cls, sig_exc(e)),
+                   dict(part='dep', side=side, brty=brty, did=did, op=op,
+                        first=first, second=second, error=repr(e)))
+        run.outcome(('dep', side, op, out))
+        if bad is None:
+            run.ok(key, nontrivial=out == 'returned')
+        else:
+            run.fail(bad[0], bad[1], key)
+    run.count('dep', len(items))
+    run.sample(dict(part='dep', side=side, op=op, first=items[0][1]))
+    return run.export()
+
+
+def dep_units(tier):
+    units = []
+    for side in ('initiator', 'target'):
+        frames = dep_frames(tier, side)
+        ops = ('exchange', 'exchange-chained', 'deactivate', 'release') \
+            if side == 'initiator' else ('exchange', 'exchange-chained',
+                                         'rtox', 'deactivate')
+        seconds = [None]
+        if tier == 'thorough':
+            seconds += [f for k, f in frames[::97]]
+        else:
+            seconds += [f for k, f in frames[::400]]
+        for brty in ('106A', '212F'):
+            for did in (None, 1):
+                for op in ops:
+                    items = [(k, f.hex(), None if s2 is None else s2.hex())
+                             for k, f in frames for s2 in seconds]
+                    for chunk in par.chunks(items, 8):
+                        units.append(('dep', (side, brty, did, op, chunk)))
+    return units
+
+
+WORKERS['dep'] = dep_work
+UNITS['dep'] = dep_units
